@@ -12,7 +12,9 @@ package main
 //            diff-time signature stream and the groups of pwr.ComputeHashInfo
 //   "hinfo", "vfile" (c04_repaired.go): ComputeHashInfo on signatures with too few / too many
 //            hashes; validation of files shorter / longer than signed or damaged, wound for wound
-// plus oracle-only build cases ("build") for everything too large to spell out in a case file.
+// plus oracle-only build cases ("build") for everything too large to spell out in a case file, and
+// oracle-only sessions (c04_sessions.go): several validations through one ValidatorContext, several
+// signings / validations running at the same time.
 // The oracle recomputes every hash from the build's bytes with its own weak hash and crypto/md5.
 
 import (
@@ -67,7 +69,10 @@ func runC04(c *Ctx) error {
 	if err := c04Hinfo(c); err != nil { // c04_repaired.go
 		return err
 	}
-	return c04Vfile(c) // c04_repaired.go
+	if err := c04Vfile(c); err != nil { // c04_repaired.go
+		return err
+	}
+	return c04Sessions(c) // c04_sessions.go
 }
 
 // ---------------------------------------------------------------- chunky readers
